@@ -11,6 +11,10 @@ THEOREMS = [
     "C08.queries_truthful",
     "C08.support_invariant_needs_wf",
     "C08.rejustified_dead_handle",
+    # the maintenance call `C` (oracle clause `maintenance`: C08.weave / C08.unweave, Spec.lean)
+    "C08.maintenance_noop",
+    "C08.maintenance_transparent",
+    "C08.maintenance_exact",
 ]
 N = {"quick": 5000, "thorough": 50000}
 EXHAUSTIVE = {"quick": True, "thorough": True}
@@ -34,7 +38,8 @@ RULE = ("cases = corpus + EVERY history of length <=5 (thorough: <=6) creating a
         "working_memory_mut().clear_modification_tracking() (op `C`, 'after propagation' clearing of the pending modified/retracted "
         "tracking sets) directly after 2 of 3 retractions and at random other places, followed by further operations incl. a second "
         "retraction of facts that are gone and justifications naming them; the call inserts and retracts nothing, so its step must "
-        "repeat the previous step's observations (oracle clause `maintenance`, checked by the driver, which then removes the step: "
+        "repeat the previous step's observations (oracle clause `maintenance` = C08.unweave in Spec.lean, evaluated by the driver, which then removes the step; "
+        "theorems maintenance_noop / maintenance_transparent / maintenance_exact: "
         "model and Spec see the same history without it, so every later step is also compared with the run that never cleared). "
         "Each history is run on IncrementalEngine (real code) plus a stand-alone TruthMaintenanceSystem fed the same calls "
         "(to observe the return value of retract_with_cascade) and on the Lean model; after EVERY operation the result, "
